@@ -564,6 +564,7 @@ impl<'w> PoolSim<'w> {
 					key_id,
 					coinbase: false,
 					height: 0,
+					leaf: 0,
 				};
 				expect = Some(false);
 				self.make_spend(&[fake], 1, Self::plain_fee(1, 1), None, &mut rng)
